@@ -131,6 +131,13 @@ class WireJson(Harness):
         from vf import fakezmq
 
         job, spec = h_ctrl.build_job(ch, params["n"], params["multi"], False, None, with_ext=True)
+        if ch.flag("fields_filled_in_after_construction"):
+            # the same job, with its requested outputs and custom serdes added to the default containers afterwards
+            job2 = JobInstance(tasks=dict(job.tasks), edges=list(job.edges))
+            for d in job.ext_outputs:
+                job2.ext_outputs.append(d)
+            job2.serdes["builtins.bytes"] = ("vf.serde_types.ser_grid", "vf.serde_types.des_grid")
+            job = job2
         req = g_api.SubmitJobRequest(job=g_api.JobSpec(benchmark_name=None, envvars={"A": "1"}, job_instance=job, workers_per_host=2, hosts=1, use_slurm=False))
         seen = {}
 
